@@ -180,7 +180,9 @@ def _c_n1(v):
         return False
     if w.get('entry') not in ('RepCode.readBytes', 'cRepCode.from70', 'RepCode.from70'):
         return False
-    return w.get('passed') is not None and w['passed'] < 0 and w['word'] >= 0x80000000
+    if w.get('form') != 'bytes' and not (isinstance(w.get('passed'), int) and w['passed'] < 0):
+        return False
+    return w['word'] >= 0x80000000
 
 
 @classifier('c07_to68_min_clamp')
@@ -322,7 +324,7 @@ def np_wrong(code, words, np, R):
     return None
 
 
-def check_batch(S, code, words, entries, np, R, count_label=None):
+def check_batch(S, code, words, entries, np, R, tag=None):
     """words: uint64 array of unsigned words.  entries: list of (name, form, fn).  Compare every entry's result on
     every word with the exact reference.  Returns {name: result list} for differential use."""
     rec = S.rec
@@ -336,9 +338,9 @@ def check_batch(S, code, words, entries, np, R, count_label=None):
     forms = {}
     results = {}
     n_assert = int(asserted.sum())
-    rec.add('words_checked:%s%s' % (cname, S.under), len(wl))
+    rec.add('words_checked:%s%s' % (tag or cname, S.under), len(wl))
     if n_assert != len(wl):
-        rec.add('words_not_asserted:%s%s' % (cname, S.under), len(wl) - n_assert)
+        rec.add('words_not_asserted:%s%s' % (tag or cname, S.under), len(wl) - n_assert)
     exp_list = exp.tolist() if is_int else None
     for name, form, fn in entries:
         if form not in forms:
@@ -409,10 +411,10 @@ def check_batch(S, code, words, entries, np, R, count_label=None):
         key = (cname, name)
         order = list(np.nonzero(~explained)[0][:CAP * 3]) + list(np.nonzero(explained)[0][:CAP_KNOWN * 2])
         for j in order:
-            if not S.want(key, bool(explained[j])):
-                continue
             i = int(bad_idx[j])
             word = wl[i]
+            if not S.want(key + ((word >> (bits - 1)),) if explained[j] else key, bool(explained[j])):
+                continue
             x = R.scalar_value(code, word)
             kind, text = describe(got[i])
             d = R.exact_double(x) if x not in R.MARKERS else None
@@ -572,6 +574,18 @@ def random_words(code, S, n, np, salt):
     return fmix32((idx ^ np.uint64(h & 0xFFFFFFFF)).astype(np.uint32), np).astype(np.uint64)
 
 
+def lis50_band_words(S, n, np):
+    """n distinct code 50 words with exponent in [-1100, 1100]: i -> (a*i + b) mod N is a bijection of Z_N (a coprime to N)."""
+    N = 2201 * 65536            # = 31 * 71 * 2^16
+    h = int.from_bytes(hashlib.blake2b(('%s:lis50band' % S.seed_key).encode(), digest_size=8).digest(), 'big')
+    a = 1000003                 # prime, not 2, 31 or 71
+    idx = np.arange(S.part * n, S.part * n + n, dtype=np.uint64)
+    j = (idx * np.uint64(a) + np.uint64(h % N)) % np.uint64(N)
+    e = (j >> np.uint64(16)).astype(np.int64) - 1100
+    m = j & np.uint64(0xFFFF)
+    return ((e & 0xFFFF).astype(np.uint64) << np.uint64(16)) | m
+
+
 # ======================================================================================================================
 # legs
 # ======================================================================================================================
@@ -641,6 +655,9 @@ def leg_b_wide(S, mods, RPmods, np, R, n_random, codes=None, which=('user', 'p',
             leg_bit(S, mine, RPmods, np, R)
         rnd = random_words(code, S, n_random, np, 'b')
         run_fixed(S, code, rnd, ents, 'scrambled-index random words', None, np, R, diff)
+        if code == 50:
+            # 97% of code 50 words have no float64 value; add distinct words whose exponent is in the float64 band
+            run_fixed(S, code, lis50_band_words(S, n_random, np), ents, 'exponent in [-1100, 1100], affine-scrambled distinct words', None, np, R)
         if code == 'ISINGL' and not S.under:
             leg_bit(S, rnd, RPmods, np, R)
 
@@ -657,7 +674,7 @@ def leg_bit(S, words, RPmods, np, R):
         other, _ = call_list(lambda b: RP.ISINGL(LogicalData(b)), bs)
         res = {'ReadBIT.bytes_to_float': got, 'RP66V1.ISINGL': other}
         differential(S, 'IBM single', 'bit_vs_isingl', bs_hex(bs), res, ['ReadBIT.bytes_to_float', 'RP66V1.ISINGL'], np, as_float=True)
-        check_batch(S, 'ISINGL', chunk, [('ReadBIT.bytes_to_float', 'bytes', ReadBIT.bytes_to_float)], np, R)
+        check_batch(S, 'ISINGL', chunk, [('ReadBIT.bytes_to_float', 'bytes', ReadBIT.bytes_to_float)], np, R, tag='BIT(IBM single)')
         # longer input: only the first four bytes count
         if a == 0:
             for b in bs[:200]:
@@ -764,7 +781,7 @@ def gen_var(name, rng, R):
     def rb(n, alphabet=None):
         if alphabet:
             return bytes(rng.choice(alphabet) for _ in range(n))
-        return bytes(rng.getrandbits(8) for _ in range(n))
+        return rng.randbytes(n)
 
     def uv():
         k = rng.random()
@@ -935,8 +952,10 @@ def leg_d_encoders(S, mods, rng, n, np, R, which=('user', 'p', 'c', 'cp')):
                 continue
             dec = R.np_lis68(warr.astype(np.uint64))
             rec.mon('encoder_bound', int(inrange.sum()))
-            diff = np.abs(dec - chunk)          # exact when the two are within a factor of two; huge otherwise
-            bad = inrange & ~(diff * 4194304.0 < absv)
+            with np.errstate(over='ignore', invalid='ignore'):
+                diff = np.abs(dec - chunk)      # exact when the two are within a factor of two; huge otherwise
+            with np.errstate(over='ignore', invalid='ignore'):
+                bad = inrange & ~(diff * 4194304.0 < absv)
             for i in np.nonzero(bad)[0][:CAP].tolist():
                 x, d = Fraction(vl[i]), Fraction(float(dec[i]))
                 if abs(d - x) * (1 << 22) < abs(x):
@@ -1170,6 +1189,7 @@ def finish_harness(S, h, R):
     if h['p'].returncode != 0:
         rec.inconclusive_because('sanitizer harness exit status %s: %s' % (h['p'].returncode, (err or '')[-500:]))
     total_words = 0
+    n_from68_legs = 0
     for ln in out.splitlines():
         kv = dict(t.split('=', 1) for t in ln.split()[1:] if '=' in t)
         if ln.startswith('RESULT'):
@@ -1178,10 +1198,11 @@ def finish_harness(S, h, R):
             rec.add('native_sweep_checked:%s' % leg, n)
             if leg == 'from68':
                 total_words += n
-                full = int(kv['stride']) == 1 and int(kv['lo']) == h['lo'] and int(kv['hi']) == h['hi']
-                if int(kv['lo']) in (h['lo'], h['lo'] + (int(kv['lo']) - h['lo'])) and int(kv['hi']) == h['hi'] and int(kv['stride']) == h['stride'] and (int(kv['hi']) - h['lo']) == (1 << 32) // S.parts:
-                    rec.bulk_cases('LIS68 native sweep _from68 + _to68(_from68(w)) [ASan+UBSan], stride %d' % h['stride'], n, n if full else 0,
-                                   exhaustive=True if full else None)
+                n_from68_legs += 1
+                if n_from68_legs == 1:          # the first from68 leg is this shard's slice of the word space
+                    full = int(kv['stride']) == 1 and int(kv['lo']) == h['lo'] and int(kv['hi']) == h['hi']
+                    rec.bulk_cases('LIS68 native sweep _from68 + _to68(_from68(w)) over the whole word space [ASan+UBSan], stride %d' % h['stride'],
+                                   n, n if full else 0, exhaustive=True if full else None)
                 else:
                     rec.bulk_cases('LIS68 native sweep boundary windows, stride 1 [ASan+UBSan]', n, 0, exhaustive=None)
             elif leg == 'from49':
